@@ -224,4 +224,33 @@ def pubRanks (es : List Evt) : List Nat :=
 
 def stops (es : List Evt) : Nat := es.countP (· == .stopNode)
 
+/-! ### node/app `App.UpdateNodeState` and the cluster provider
+
+`NodeCtrl.setState` hands every state change to `INodeApp.UpdateNodeState`; the real
+`node/app.App.UpdateNodeState` passes it to `provider.UpdateClusterState(state)` exactly once
+and ignores the error: a publication the registry refuses is dropped — it is never retried,
+never repeated, never reordered.  The environment is a fault script: the k-th provider call
+of the node's life fails iff the k-th entry is `true` (an exhausted script: the provider works). -/
+
+/-- the states the provider delivered, in order -/
+def delivered : List Bool → List NS → List NS
+  | _, [] => []
+  | [], s :: rest => s :: delivered [] rest
+  | true :: sc, _ :: rest => delivered sc rest
+  | false :: sc, s :: rest => s :: delivered sc rest
+
+/-- the states the provider refused (the error `App.UpdateNodeState` ignores), in order -/
+def lostOf : List Bool → List NS → List NS
+  | _, [] => []
+  | [], _ :: rest => lostOf [] rest
+  | true :: sc, s :: rest => s :: lostOf sc rest
+  | false :: sc, _ :: rest => lostOf sc rest
+
+/-- the fault script after `k` provider calls -/
+def scriptAfter (sc : List Bool) (k : Nat) : List Bool := sc.drop k
+
+/-- what the cluster has been shown over a whole case: the provider's view of `exec` -/
+def clusterView (sc : List Bool) (es : List Evt) : List NS :=
+  delivered sc (es.filterMap (fun e => match e with | .pub s => some s | _ => none))
+
 end Cell2v.NodeCtrl
